@@ -327,17 +327,17 @@ THOROUGH_REPS = {
     "C02": {"rel": 6, "dbg": 4, "asan": 3},
     "C03": {"rel": 12, "dbg": 6, "asan": 4},
     "C04": {"rel": 40, "dbg": 24, "asan": 8, "miri": 2, "mirirel": 2, "memcheck": 1},
-    "C05": {"rel": 200, "dbg": 100, "asan": 40, "miri": 4, "mirirel": 4},
-    "C06": {"rel": 200, "dbg": 100, "asan": 40, "miri": 4, "mirirel": 4},
+    "C05": {"rel": 1000, "dbg": 600, "asan": 300, "miri": 4, "mirirel": 4},
+    "C06": {"rel": 1000, "dbg": 600, "asan": 300, "miri": 4, "mirirel": 4},
     "C07": {"rel": 60, "dbg": 30, "asan": 12},
     "C08": {"rel": 16, "dbg": 16, "asan": 4},
     "C09": {"rel": 8, "nopf": 8, "dbg": 4, "asan": 3},
     "C10": {"rel": 8, "dbg": 4, "asan": 3},
     "C11": {"rel": 16, "dbg": 8, "asan": 4},
     "C12": {"rel": 100, "dbg": 50, "asan": 20, "miri": 3},
-    "C13": {"rel": 300, "dbg": 100, "miri": 4},
+    "C13": {"rel": 600, "dbg": 400, "miri": 4},
     "C14": {"rel": 6, "dbg": 4},
-    "C15": {"rel": 40, "dbg": 20},
+    "C15": {"rel": 160, "dbg": 80},
     "C16": {"rel": 20, "dbg": 10},
     "C17": {"rel": 12, "dbg": 12, "miri": 6},
     "C18": {"rel": 4, "tsan": 4},
